@@ -1788,9 +1788,14 @@ class Method:
                 if not f:
                     # Special case for an empty signature
                     continue
-                name = f.strip()
-                field = self.input.get_field(*name.split("."))
-                name += "_" if field.field_pb.name in utils.RESERVED_NAMES else ""
+                segments = f.strip().split(".")
+                field = self.input.get_field(*segments)
+                # Every segment names a field that may have been renamed to
+                # dodge a reserved word, not only the last one.
+                name = ".".join(
+                    seg + "_" if seg in utils.RESERVED_NAMES else seg
+                    for seg in segments
+                )
                 if cross_pkg_request and not field.is_primitive:
                     # This is not a proto-plus wrapped message type,
                     # and setting a non-primitive field directly is verboten.
